@@ -1,4 +1,5 @@
 import PikoModel.Data.AMap
+import PikoModel.Generated.Facts
 /-!
 # Model of `pkg/gossip/state.go`
 
@@ -14,8 +15,11 @@ namespace Gossip
 
 def leftKey : String := "_internal:left"
 def compactKey : String := "_internal:compact"
-/-- `nodeExpiry = time.Minute` in nanoseconds -/
-def nodeExpiry : Nat := 60 * 1000000000
+/-- `nodeExpiry` in nanoseconds: the constant of `pkg/gossip/state.go` as the fact extractor reads
+it from the current source (`time.Minute` on the pinned tree).  No theorem depends on its value;
+`C11_facts_nodeExpiry` fails when the extractor could not read it (the `getD` default is then
+what the model would silently use) and `C11_silent_peer_lifecycle` needs it positive. -/
+def nodeExpiry : Nat := Facts.nodeExpiryNs.getD (60 * 1000000000)
 
 structure Entry where
   key : String
